@@ -42,6 +42,7 @@ def xNoNone : XDecl → Bool
   | .enumName _ ms _ => !(ms.any fun m => pyEq .none m.2)
   | .fmtStr _ _ => true
   | .opt _ => false
+  | .anyOf _ => false
   | .seqOf _ _ => true
   | .setOf _ => true
   | .mapStr _ => true
@@ -72,6 +73,7 @@ def xFrag (XO : XOracles) : XDecl → PyVal → Bool
       | .str s => XO.fmtOk kind s
       | _ => false)
   | .opt x, v => if v.isNone then xNoNone x else xFrag XO x v
+  | .anyOf _, _ => false       -- (wider AnyOf over extension kinds: modelled and corresponded, not in the proved fragment)
   | .seqOf k x, v =>
     (match seqElems k v with
       | some xs => xs.all (xFrag XO x)
